@@ -187,6 +187,61 @@ def check_vec_decl(d):
     return "bad", "%s is named as expressed in %s but is produced by a rotation/transform into %s" % (n, want, L[0])
 
 
+def point_of(x):
+    """(origin, point) if the expression denotes the position of point `point` measured from `origin`: X_AB.p() -> (A, B); a vector named
+    p_AB / p_AB_F -> (A, B); None otherwise"""
+    if not isinstance(x, list) or not x:
+        return None
+    if x[0] in ("call", "dcall"):
+        n = str(x[1]).split("::")[-1]
+        if n in ("p", "updP") and x[2] is not None:
+            m = rot_monogram(x[2])
+            if m:
+                return (m[0], m[1], m[0])
+            return None
+    if x[0] in ("cast", "conv") and len(x) > 1:
+        return point_of(x[2] if x[0] == "cast" else x[1])
+    n = leaf_name(x)
+    if not n:
+        return None
+    n = re.sub(r"^m_", "", n)
+    m = VEC3.match(n)
+    if m and m.group(1) == "p":
+        return (m.group(2), m.group(3), m.group(4))
+    m = VEC2.match(n)
+    if m and m.group(1) == "p":
+        return (m.group(2), m.group(3), m.group(2))
+    return None
+
+
+def check_diff_decl(d):
+    """declared vector `p_XY[_F] = a - b`: a vector named 'from X to Y' must be (position of Y) - (position of X), both measured from one
+    origin (and, when the names say so, expressed in one frame)"""
+    n = re.sub(r"^m_", "", d.get("var") or "")
+    init = d.get("init")
+    if not (isinstance(init, list) and init and init[0] in ("op", "opc") and init[1] == "-" and len(init) == 4):
+        return "skip", ""
+    m3, m2 = VEC3.match(n), VEC2.match(n)
+    if m3 and m3.group(1) == "p":
+        X, Y, F = m3.group(2), m3.group(3), m3.group(4)
+    elif m2 and m2.group(1) == "p":
+        X, Y, F = m2.group(2), m2.group(3), None
+    else:
+        return "skip", ""
+    a, b = point_of(init[2]), point_of(init[3])
+    if not a or not b:
+        return "unchecked", "difference %s has an operand without a position monogram" % sx_str(init)[:50]
+    if a[0] != b[0]:
+        return "unchecked", "operands are measured from different origins (%s, %s)" % (a[0], b[0])
+    if (a[1], b[1]) == (Y, X):
+        if a[2] != b[2]:
+            return "bad", "%s subtracts positions expressed in different frames (%s, %s)" % (n, a[2], b[2])
+        return "ok", "%s = p(%s) - p(%s), both from %s" % (n, Y, X, a[0])
+    if (a[1], b[1]) == (X, Y):
+        return "bad", "%s is named 'from %s to %s' but is computed as p(%s) - p(%s): the vector points the other way" % (n, X, Y, X, Y)
+    return "bad", "%s is named 'from %s to %s' but is computed from the positions of %s and %s" % (n, X, Y, a[1], b[1])
+
+
 def check_assign(e):
     """`X_AD = product` assignments to named rotations/transforms (locals or members)"""
     x = e["x"]
@@ -229,3 +284,6 @@ def scan(P, file_pred):
                 st, det = check_vec_decl(e)
                 if st != "skip":
                     yield fn, e, "vecdecl", st, det
+                st, det = check_diff_decl(e)
+                if st != "skip":
+                    yield fn, e, "diffdecl", st, det
